@@ -159,6 +159,12 @@ static void synth(Case& c, const Fn* f, const Mut& mut, bool reuse, Args& A) {
     int r = ccall(c, g, vp(A.a[0].p), vp(A.a[1].p));
     if (r != 0) { if (!c.failed) hx::inconclusive("precondition_not_established"); A.ok = false; return; }
   }
+  // Known core defect kept out of the way (reported, see the engine report): Grid::add_recycled_grid_generators
+  // on an empty-but-unmarked grid ignores the result of update_generators() and indexes an empty generator system.
+  if (f->home >= 0 && !strcmp(type_table[f->home].name, "Grid") && schema_has(f, "grid_generator") && strstr(f->name, "_add_") && A.obj[0] >= 0) {
+    hx::count("known_defect_avoided.Grid_add_grid_generators_on_unmarked_empty");
+    if (ccall(c, "ppl_Grid_is_empty", vp(A.a[0].p)) < 0) { A.ok = false; return; }
+  }
   long rdim = obj_dim(c, recv);
   if (rdim < 0) rdim = n;
   // pass 2: iterators
@@ -339,13 +345,36 @@ static void synth(Case& c, const Fn* f, const Mut& mut, bool reuse, Args& A) {
   if (mut.kind == MUT_BAD_ENUM) A.use_fork = true;
 }
 
+// Genuine defects of the core library (not of the C interface) that kill the process: the call is
+// not made, the avoidance is counted, the defect is described in the engine report.
+static bool known_core_defect(Case& c, const Fn* f, const Args& A) {
+  (void) c;
+  const char* home = f->home >= 0 ? type_table[f->home].name : "";
+  if (strstr(home, "Box") && strstr(f->name, "bounded_affine_preimage") && A.obj[2] >= 0 && A.obj[3] >= 0) {
+    // Box::bounded_affine_preimage divides by the coefficient of `var' in ub_expr / lb_expr (Box_templates.hh:3476, :3513)
+    const Linear_Expression& lb = *static_cast<const Linear_Expression*>(A.a[2].p);
+    const Linear_Expression& ub = *static_cast<const Linear_Expression*>(A.a[3].p);
+    size_t v = A.a[1].z;
+    bool lz = v >= lb.space_dimension() || lb.coefficient(Variable(v)) == 0;
+    bool uz = v >= ub.space_dimension() || ub.coefficient(Variable(v)) == 0;
+    if (lz != uz || (lz && uz)) { hx::count("known_defect_avoided.Box_bounded_affine_preimage_zero_var_coefficient"); return lz != uz; }
+  }
+  return false;
+}
+
 static std::string describe(Case& c, const Fn* f, const Args& A) {
   std::ostringstream o; o << f->name << "(";
   for (int k = 0; k < f->nargs; ++k) {
     const ArgSpec& s = f->args[k]; if (k) o << ", ";
     o << s.name << "=";
     switch (s.kind) {
-    case K_HIN: { std::string d = A.obj[k] >= 0 ? type_table[s.type].ops->dump(c.objs[A.obj[k]].h) : "?"; if (d.size() > 160) d = d.substr(0, 160) + "..."; for (size_t i = 0; i < d.size(); ++i) if (d[i] == '\n') d[i] = ' '; o << type_table[s.type].name << "{" << d << "}"; break; }
+    case K_HIN:
+      if (A.obj[k] >= 0 && type_table[s.type].cat == CAT_ITER && c.objs[A.obj[k]].owner >= 0) {
+        const Obj& ow = c.objs[c.objs[A.obj[k]].owner];
+        o << type_table[s.type].name << "{at " << type_table[s.type].ops->ipos(ow.h, c.objs[A.obj[k]].h) << " of " << type_table[s.type].ops->csize(ow.h) << "}";
+        break;
+      }
+      { std::string d = A.obj[k] >= 0 ? type_table[s.type].ops->dump(c.objs[A.obj[k]].h) : "?"; if (d.size() > 160) d = d.substr(0, 160) + "..."; for (size_t i = 0; i < d.size(); ++i) if (d[i] == '\n') d[i] = ' '; o << type_table[s.type].name << "{" << d << "}"; break; }
     case K_DIM: case K_SIZE: o << A.a[k].z; break;
     case K_INT: case K_ENUM: o << A.a[k].i; break;
     case K_UINT: o << A.a[k].u; break;
@@ -367,7 +396,7 @@ static int expected_code_of_exception(int cls) { return cls; }
 static bool check_tight(Case& c, const Fn* f, const CallResult& cr, const std::string& what) {
   std::string pat = f->pattern;
   hx::checked(3);
-  if (cr.crashed) { viol(c, "C20.code." + pat + ".crash", what + " died in the isolated child, signal " + itos(cr.crash_sig)); return false; }
+  if (cr.crashed) { viol(c, "C20.code." + pat + ".crash", what + " died in the isolated child (" + (cr.crash_sig > 0 ? "signal " + itos(cr.crash_sig) : "sanitizer report, exit status " + itos(-cr.crash_sig)) + ")"); return false; }
   if (cr.escaped) { viol(c, "C20.escape." + pat, what + " let an exception cross the language boundary: " + cr.exc); return false; }
   if (cr.r < 0) {
     hx::count(std::string("ret.") + code_name(cr.r));
@@ -465,6 +494,7 @@ static StepOut step(Case& c, const Fn* f, const Mut& mut, Mode mode, long arm_k,
   Args A;
   synth(c, f, mut, reuse, A);
   if (!A.ok || c.failed) { release_temps(c, A); return so; }
+  if (mut.kind == MUT_NONE && known_core_defect(c, f, A)) { release_temps(c, A); return so; }
   const flags_t F = f->flags;
   std::string what = describe(c, f, A) + " [" + MUT_NAME[mut.kind] + "]";
   hx::tr(what + "\n");
@@ -482,7 +512,7 @@ static StepOut step(Case& c, const Fn* f, const Mut& mut, Mode mode, long arm_k,
       if (s.kind == K_HIN && A.obj[k] >= 0) {
         const TypeOps* ops = type_table[s.type].ops;
         t.cp[k] = ops->clone(A.a[k].p);
-        if (s.is_const && type_table[s.type].cat != CAT_BORROWED && type_table[s.type].cat != CAT_ITER) {
+        if (s.is_const && type_table[s.type].cat != CAT_BORROWED && type_table[s.type].cat != CAT_ITER && type_table[s.type].cat != CAT_MIP && type_table[s.type].cat != CAT_PIP) {
           pre[k] = ops->clone(A.a[k].p);
           dump_before[k] = ops->dump(A.a[k].p); tdump_before[k] = ops->dump(t.cp[k]);
         }
@@ -502,7 +532,7 @@ static StepOut step(Case& c, const Fn* f, const Mut& mut, Mode mode, long arm_k,
   Val* av = A.a;
   std::function<int()> thunk = [f, av]() { return f->call(av); };
   if (g_before_call) g_before_call();
-  CallResult cr = A.use_fork ? forked(thunk) : guarded(thunk, mode == M_ALLOC ? arm_k : 0);
+  CallResult cr = A.use_fork ? forked(thunk, false) : guarded(thunk, mode == M_ALLOC ? arm_k : 0);
   if (A.use_fork) hx::count("calls.forked");
   std::string captured; if (F & F_IO_STDOUT) captured = cap.end();
   so.called = true; so.cr = cr;
@@ -535,6 +565,7 @@ static StepOut step(Case& c, const Fn* f, const Mut& mut, Mode mode, long arm_k,
       if (cr.r >= 0) { viol(c, "C20.code." + pat + ".error_not_reported:" + code_name(texc), what + ": the C++ operation throws (" + twhat + ") but the C function returned " + itos(cr.r)); ok = false; }
       else if (cr.r != texc) { viol(c, "C20.code." + pat + ".expected_" + code_name(texc) + "_got_" + code_name(cr.r), what + ": C++ exception: " + twhat + "; handler text: " + g_handler.desc); ok = false; }
     }
+    else if (t.ret < 0 && cr.r == t.ret) { hx::count("twin_expected_error_return"); }
     else if (cr.r < 0) {
       viol(c, "C20.code." + pat + ".spurious_" + code_name(cr.r), what + ": the C++ operation succeeds, the C function reports " + g_handler.desc); ok = false;
     }
@@ -672,7 +703,7 @@ static bool tight_simple(Case& c, const Fn* f, const std::function<int()>& fn, l
     if (cr.r < 0 && cr.r != PPL_ERROR_OUT_OF_MEMORY) { viol(c, std::string("C20.code.") + f->pattern + ".oom_reported_as_" + code_name(cr.r), what); return false; }
     return true;
   }
-  if (expect <= 0 && cr.r != expect && !(expect == 0 && cr.r > 0)) {
+  if (expect <= 0 && cr.r != expect && !(expect == 0 && cr.r > 0)) {   // expect > 0: the caller judges the return value
     if (expect == 0) viol(c, std::string("C20.code.") + f->pattern + ".spurious_" + code_name(cr.r), what + " returned " + itos(cr.r) + " (" + g_handler.desc + ")");
     else if (cr.r >= 0) viol(c, std::string("C20.code.") + f->pattern + ".error_not_reported:" + code_name(expect), what + " returned " + itos(cr.r));
     else viol(c, std::string("C20.code.") + f->pattern + ".expected_" + code_name(expect) + "_got_" + code_name(cr.r), what);
@@ -752,9 +783,18 @@ static void run_special(Case& c, const Fn* f, Mode mode, long arm_k) {
     return;
   }
   if (n == "ppl_set_timeout" || n == "ppl_reset_timeout") {
-    if (!tight_simple(c, f, []() { return ppl_set_timeout(0); }, 0, PPL_ERROR_INVALID_ARGUMENT, "ppl_set_timeout(0)")) { ppl_reset_timeout(); return; }
+    // csecs must be > 0: refused with INVALID_ARGUMENT (isolated: the refusing constructor is checked for leaks)
+    if (mode == M_PLAIN) {
+      hx::tr("ppl_set_timeout(0) [isolated]\n"); hx::count("calls"); hx::count("calls.forked");
+      CallResult cr = forked([]() { return ppl_set_timeout(0); }, true);
+      if (!check_tight(c, f, cr, "ppl_set_timeout(0)")) return;
+      hx::checked(2);
+      if (cr.r != PPL_ERROR_INVALID_ARGUMENT) { viol(c, "C20.code.ppl_set_timeout.zero_csecs_accepted", "ppl_set_timeout(0) returned " + itos(cr.r)); return; }
+      if (cr.leaked) { viol(c, "C20.handle.leak.ppl_set_timeout:zero_csecs", "ppl_set_timeout(0) returns PPL_ERROR_INVALID_ARGUMENT and leaks the Handler_Flag allocated in the member initialiser of Watchdog::Watchdog (src/Watchdog_inlines.hh:38) before the argument check throws"); return; }
+    }
     CallResult cr;
     if (!tight_simple(c, f, []() { return ppl_set_timeout(50000); }, n == "ppl_set_timeout" ? k : 0, 0, "ppl_set_timeout(50000)", &cr)) { ppl_reset_timeout(); return; }
+    if (!tight_simple(c, f, []() { return ppl_set_timeout(40000); }, 0, 0, "ppl_set_timeout(40000) (replaces the pending one)")) { ppl_reset_timeout(); return; }
     tight_simple(c, f, []() { return ppl_reset_timeout(); }, n == "ppl_reset_timeout" ? k : 0, 0, "ppl_reset_timeout()");
     tight_simple(c, f, []() { return ppl_reset_timeout(); }, 0, 0, "ppl_reset_timeout() (nothing set)");
     hx::checked(1);
@@ -762,9 +802,22 @@ static void run_special(Case& c, const Fn* f, Mode mode, long arm_k) {
     return;
   }
   if (n == "ppl_set_deterministic_timeout" || n == "ppl_reset_deterministic_timeout") {
-    if (!tight_simple(c, f, []() { return ppl_set_deterministic_timeout(0, 0); }, 0, PPL_ERROR_INVALID_ARGUMENT, "ppl_set_deterministic_timeout(0,0)")) { ppl_reset_deterministic_timeout(); return; }
-    if (!tight_simple(c, f, []() { return ppl_set_deterministic_timeout(~0UL, 40); }, 0, PPL_ERROR_INVALID_ARGUMENT, "ppl_set_deterministic_timeout(ULONG_MAX,40)")) { ppl_reset_deterministic_timeout(); return; }
+    if (mode == M_PLAIN) {
+      CallResult cr;
+      // documented: PPL_ERROR_INVALID_ARGUMENT if unscaled_weight is zero or the threshold exceeds the maximum
+      if (!tight_simple(c, f, []() { return ppl_set_deterministic_timeout(0, 0); }, 0, 1, "ppl_set_deterministic_timeout(0,0)", &cr)) { ppl_reset_deterministic_timeout(); return; }
+      ppl_reset_deterministic_timeout();
+      if (cr.r != PPL_ERROR_INVALID_ARGUMENT) { viol(c, "C20.code.ppl_set_deterministic_timeout.zero_weight_accepted", "ppl_set_deterministic_timeout(0,0) returned " + itos(cr.r) + "; documented: PPL_ERROR_INVALID_ARGUMENT if unscaled_weight is zero"); return; }
+      if (!tight_simple(c, f, []() { return ppl_set_deterministic_timeout(~0UL, 40); }, 0, PPL_ERROR_INVALID_ARGUMENT, "ppl_set_deterministic_timeout(ULONG_MAX,40)")) { ppl_reset_deterministic_timeout(); return; }
+      hx::tr("ppl_set_deterministic_timeout(2^63,0) [isolated]\n"); hx::count("calls"); hx::count("calls.forked");
+      cr = forked([]() { return ppl_set_deterministic_timeout(1UL << 63, 0); }, true);
+      if (!check_tight(c, f, cr, "ppl_set_deterministic_timeout(2^63,0)")) return;
+      hx::checked(2);
+      if (cr.r != PPL_ERROR_INVALID_ARGUMENT) { viol(c, "C20.code.ppl_set_deterministic_timeout.threshold_wraps_accepted", "ppl_set_deterministic_timeout(2^63,0) returned " + itos(cr.r)); return; }
+      if (cr.leaked) { viol(c, "C20.handle.leak.ppl_set_deterministic_timeout:threshold_already_reached", "ppl_set_deterministic_timeout(2^63,0) returns PPL_ERROR_INVALID_ARGUMENT and leaks the Handler_Flag allocated in the member initialiser of Threshold_Watcher (src/Threshold_Watcher_inlines.hh:39)"); return; }
+    }
     if (!tight_simple(c, f, []() { return ppl_set_deterministic_timeout(1000000, 10); }, n == "ppl_set_deterministic_timeout" ? k : 0, 0, "ppl_set_deterministic_timeout(1000000,10)")) { ppl_reset_deterministic_timeout(); return; }
+    if (!tight_simple(c, f, []() { return ppl_set_deterministic_timeout(2000000, 10); }, 0, 0, "ppl_set_deterministic_timeout(2000000,10) (replaces the pending one)")) { ppl_reset_deterministic_timeout(); return; }
     tight_simple(c, f, []() { return ppl_reset_deterministic_timeout(); }, n == "ppl_reset_deterministic_timeout" ? k : 0, 0, "ppl_reset_deterministic_timeout()");
     tight_simple(c, f, []() { return ppl_reset_deterministic_timeout(); }, 0, 0, "ppl_reset_deterministic_timeout() (nothing set)");
     return;
@@ -783,9 +836,17 @@ static void new_case(Case& c) {
 
 static const Fn* fn_of_case(long idx) { const std::vector<const Fn*>& v = all_fns(); return v[(size_t) (idx % (long) v.size())]; }
 
+static bool undefined_entry_point(Case& c, const Fn* f) {
+  if (!(f->flags & F_UNDEFINED)) return false;
+  hx::checked(1);
+  viol(c, std::string("C20.code.") + f->pattern + ".declared_but_not_defined", std::string(f->name) + " is declared in ppl_c.h but defined nowhere in the interface library: a client calling it does not link");
+  return true;
+}
+
 static void case_equiv(long idx, bool illformed) {
   Case c; new_case(c);
   const Fn* f = fn_of_case(idx);
+  if (undefined_entry_point(c, f)) return;
   if (f->flags & F_SPECIAL) { run_special(c, f, M_PLAIN, 0); cleanup(c); return; }
   Mut mut;
   if (illformed) {
@@ -801,6 +862,7 @@ static void case_equiv(long idx, bool illformed) {
 static void case_alloc(long idx) {
   Case c; new_case(c);
   const Fn* f = fn_of_case(idx);
+  if (f->flags & F_UNDEFINED) return;
   if (f->flags & F_SPECIAL) {
     for (long k = 1; k <= 3 && !c.failed; ++k) run_special(c, f, M_ALLOC, k);
     cleanup(c); return;
@@ -833,6 +895,7 @@ static void case_alloc(long idx) {
 static void case_timeout(long idx) {
   Case c; new_case(c);
   const Fn* f = fn_of_case(idx);
+  if (f->flags & F_UNDEFINED) return;
   if (f->flags & F_SPECIAL) { run_special(c, f, M_PLAIN, 0); cleanup(c); return; }
   bool real = hx::opt().geti("real", 0) ? true : ((idx / (long) all_fns().size()) % 8 == 7);
   static bool s_real; s_real = real;
@@ -877,7 +940,7 @@ static void case_seq(long idx) {
   const std::vector<const Fn*>& all = all_fns();
   for (size_t i = 0; i < all.size(); ++i) {
     const Fn* f = all[i];
-    if (f->flags & F_SPECIAL) continue;
+    if (f->flags & (F_SPECIAL | F_UNDEFINED)) continue;
     if (f->home == dom) cand.push_back(f);
   }
   int steps = hx::rnd(6, 12);
